@@ -191,17 +191,17 @@ VariantFitsCodec(variant) ==
 
 PatchLast(s, dt) == IF s = << >> THEN s ELSE [s EXCEPT ![Len(s)].dur = dt - s[Len(s)].dt]
 
-Sample(presT, decT, stored, key) ==
+Sample(presT, decT, stored, key, src) ==
     [p3 |-> S3(presT), d3 |-> S3(decT), pt |-> Tk(presT), dt |-> Tk(decT),
-     data |-> stored, key |-> key, dur |-> None]
+     data |-> stored, key |-> key, dur |-> None, src |-> src]
 
 AcceptVideo(presT, decT, data, key) ==
-    /\ v' = Append(PatchLast(v, Tk(decT)), Sample(presT, decT, Stored(cfg.vc, data), key))
+    /\ v' = Append(PatchLast(v, Tk(decT)), Sample(presT, decT, Stored(cfg.vc, data), key, data))
     /\ shadow' = [shadow EXCEPT !.firstV = IF @ = None THEN S3(presT) ELSE @]
     /\ UNCHANGED a
 
 AcceptAudio(presT, data) ==
-    /\ a' = Append(PatchLast(a, Tk(presT)), Sample(presT, presT, StoredA(cfg.ac, data), FALSE))
+    /\ a' = Append(PatchLast(a, Tk(presT)), Sample(presT, presT, StoredA(cfg.ac, data), FALSE, data))
     /\ UNCHANGED << v, shadow >>
 
 (* What the pinned tree did on some rejected calls (deviation switches). *)
